@@ -220,9 +220,16 @@ fn run_image(input: &Value, line: &Option<String>) -> Case {
     }
 }
 
-fn de_image_inproc(doc: &J) -> Option<Result<Image, String>> {
+/// Image::deserialize on JSON text through one of serde_json's three text entry points (all of them hand the
+/// visitor the keys in document order, repeats included)
+fn de_image_text(doc: &J, mode: &str) -> Option<Result<Image, String>> {
     let t = j_text(doc);
-    catch(move || serde_json::from_str::<Image>(&t).map_err(|e| e.to_string()))
+    let mode = mode.to_string();
+    catch(move || match mode.as_str() {
+        "slice" => serde_json::from_slice::<Image>(t.as_bytes()).map_err(|e| e.to_string()),
+        "reader" => serde_json::from_reader::<_, Image>(std::io::Cursor::new(t.into_bytes())).map_err(|e| e.to_string()),
+        _ => serde_json::from_str::<Image>(&t).map_err(|e| e.to_string()),
+    })
 }
 
 fn run_image_rt(input: &Value) -> Case {
@@ -285,30 +292,134 @@ fn run_image_ch(input: &Value) -> Case {
     let c = input["c"].as_u64().unwrap_or(4);
     let h = input["h"].as_u64().unwrap_or(1);
     let w = input["w"].as_u64().unwrap_or(1);
-    let data = vbytes(&input["data"]);
-    // key order of the document is part of the input
-    let order = input["order"].as_u64().unwrap_or(0);
-    let mut fields = vec![
-        ("size", obj(vec![("height", J::U(h)), ("width", J::U(w))])),
-        ("channels", J::U(c)),
-        ("data", js(&b64(&data))),
-    ];
-    fields.rotate_left((order % 3) as usize);
-    if order >= 3 {
-        fields.swap(0, 1);
-    }
-    let doc = obj(fields);
-    let r = de_image_inproc(&doc);
-    let seen = doc.clone();
+    let mode = input["mode"].as_str().unwrap_or("str").to_string();
+    // either an explicit document with its data parts (repeated keys), or the three fields in one of six orders
+    let (parts, doc): (Vec<Vec<u8>>, J) = if input.get("doc").is_some() {
+        (input["parts"].as_array().map(|a| a.iter().map(vbytes).collect()).unwrap_or_default(), j_from_spec(&input["doc"]))
+    } else {
+        let data = vbytes(&input["data"]);
+        let order = input["order"].as_u64().unwrap_or(0);
+        let mut fields = vec![
+            ("size", obj(vec![("height", J::U(h)), ("width", J::U(w))])),
+            ("channels", J::U(c)),
+            ("data", js(&b64(&data))),
+        ];
+        fields.rotate_left((order % 3) as usize);
+        if order >= 3 {
+            fields.swap(0, 1);
+        }
+        (vec![data], obj(fields))
+    };
+    let r = de_image_text(&doc, &mode);
     let (rc, rj) = coq_ires(&r);
     let mut j = input.clone();
     j["impl"] = rj;
+    j["text"] = json!(j_text(&doc).chars().take(300).collect::<String>());
+    let ndata = match &doc {
+        J::O(f) => f.iter().filter(|(k, _)| k == "data").count(),
+        _ => 0,
+    };
     Case {
-        coq: format!("CImageCh {} {} {} {} {} {}", c, h, w, cbytes(&data), j_coq(&seen), rc),
+        coq: format!("CImageCh {} {} {} {} {} {}", c, h, w, clist(parts.iter().map(|p| cbytes(p))), j_coq(&doc), rc),
         json: j,
-        tags: vec!["kind=image_ch".to_string(), format!("channels={}", c)],
-        nontrivial: !data.is_empty(),
+        tags: vec![
+            "kind=image_ch".to_string(),
+            format!("channels={}", c),
+            format!("image_ch.data_keys={}", ndata.min(4)),
+            format!("image_ch.mode={}", mode),
+        ],
+        nontrivial: parts.iter().any(|p| !p.is_empty()),
     }
+}
+
+/// a document in the c-channel layout whose keys are repeated: `data` split into parts (appended in document
+/// order), earlier `size` / `channels` entries overridden by the last one; `bad` puts one invalid duplicate in
+fn image_dup_doc(rng: &mut Rng, c: u64, h: u64, w: u64, parts: &[Vec<u8>], bad: bool) -> J {
+    let size_j = |rng: &mut Rng, h: u64, w: u64| -> J {
+        if rng.chance(1, 2) { J::A(vec![J::U(h), J::U(w)]) } else { obj(vec![("height", J::U(h)), ("width", J::U(w))]) }
+    };
+    // the three groups, each in its own order (the last size / channels entry is the true one)
+    let mut sizes: Vec<J> = vec![];
+    for _ in 0..rng.below(3) {
+        let (oh, ow) = if rng.chance(1, 2) { (h, w) } else { (rng.below(5), rng.below(5)) };
+        sizes.push(size_j(rng, oh, ow));
+    }
+    sizes.push(size_j(rng, h, w));
+    let mut chans: Vec<J> = vec![];
+    for _ in 0..rng.below(3) {
+        chans.push(J::U(*rng.pick(&[1u64, 3, 4, c])));
+    }
+    if c != 3 || !chans.is_empty() || rng.chance(2, 3) {
+        chans.push(J::U(c));
+    }
+    let mut datas: Vec<J> = parts.iter().map(|p| js(&b64(p))).collect();
+    if bad {
+        let v = match rng.below(6) {
+            0 => J::Null,
+            1 => js("A"),
+            2 => js("A!=="),
+            3 => J::U(7),
+            4 => J::A(vec![]),
+            _ => js("===="),
+        };
+        match rng.below(3) {
+            0 => sizes.insert(rng.below(sizes.len() as u64 + 1) as usize, v),
+            1 => chans.insert(rng.below(chans.len() as u64 + 1) as usize, if rng.chance(1, 2) { J::U(*rng.pick(&[0u64, 2, 5, 255])) } else { v }),
+            _ => datas.insert(rng.below(datas.len() as u64 + 1) as usize, v),
+        }
+    }
+    // random merge of the three groups, each keeping its own order
+    let mut groups: Vec<(&str, std::collections::VecDeque<J>)> =
+        vec![("size", sizes.into()), ("channels", chans.into()), ("data", datas.into())];
+    let mut out: Vec<(String, J)> = vec![];
+    loop {
+        groups.retain(|(_, q)| !q.is_empty());
+        if groups.is_empty() {
+            break;
+        }
+        let i = rng.below(groups.len() as u64) as usize;
+        let v = groups[i].1.pop_front().unwrap();
+        out.push((groups[i].0.to_string(), v));
+        if rng.chance(1, 12) {
+            out.push(("extra".to_string(), gen_scalar(rng)));
+        }
+    }
+    J::O(out)
+}
+
+/// repeat keys of an object: each key, with probability 1/2, gets one or two more entries at random
+/// positions, carrying the same value, another entry's value, an ill-typed scalar or an empty string
+fn dup_keys(rng: &mut Rng, fields: &mut Vec<(String, J)>) {
+    let original = fields.clone();
+    for (k, v) in original.iter() {
+        if !rng.chance(1, 2) {
+            continue;
+        }
+        for _ in 0..(1 + rng.below(2)) {
+            let nv = match rng.below(4) {
+                0 => v.clone(),
+                1 => original[rng.below(original.len() as u64) as usize].1.clone(),
+                2 => gen_scalar(rng),
+                _ => js(""),
+            };
+            let at = rng.below(fields.len() as u64 + 1) as usize;
+            fields.insert(at, (k.clone(), nv));
+        }
+    }
+}
+
+/// split a byte string into k parts at random points (empty parts included)
+fn split_parts(rng: &mut Rng, data: &[u8], k: usize) -> Vec<Vec<u8>> {
+    let mut cuts: Vec<usize> = (0..k.saturating_sub(1)).map(|_| rng.below(data.len() as u64 + 1) as usize).collect();
+    cuts.sort_unstable();
+    let mut parts = vec![];
+    let mut prev = 0;
+    for c in cuts {
+        parts.push(data[prev..c].to_vec());
+        prev = c;
+    }
+    parts.push(data[prev..].to_vec());
+    parts
 }
 
 // ---------------------------------------------------------------- faces
@@ -1047,7 +1158,14 @@ pub fn image_one(stream: bool, text: &str) -> String {
     let t = text.to_string();
     let r = std::panic::catch_unwind(move || {
         if stream {
-            serde_json::from_str::<Image>(&t).map_err(|e| e.to_string())
+            // the three text entry points must agree; the answer is that of from_str
+            let a = serde_json::from_str::<Image>(&t).map_err(|e| e.to_string());
+            let b = serde_json::from_slice::<Image>(t.as_bytes()).map(|_| ()).map_err(|_| ());
+            let c = serde_json::from_reader::<_, Image>(std::io::Cursor::new(t.clone().into_bytes())).map(|_| ()).map_err(|_| ());
+            if a.is_ok() != b.is_ok() || a.is_ok() != c.is_ok() {
+                panic!("from_str / from_slice / from_reader disagree");
+            }
+            a
         } else {
             match serde_json::from_str::<Value>(&t) {
                 Ok(v) => serde_json::from_value::<Image>(v).map_err(|e| e.to_string()),
@@ -1275,11 +1393,34 @@ fn gen_b64_text(rng: &mut Rng, want: usize) -> J {
     }
 }
 
+/// every integer constant the anchored sources mention, with its neighbours (harvested at run time)
+fn src_bounds() -> &'static Vec<u64> {
+    static B: std::sync::OnceLock<Vec<u64>> = std::sync::OnceLock::new();
+    B.get_or_init(|| {
+        let mut b = source_boundaries(
+            &["src/image.rs", "src/surface.rs", "src/terminal.rs", "src/glyph.rs", "src/view/mod.rs", "src/view/flex.rs", "src/view/container.rs"],
+            u64::MAX,
+        );
+        if b.is_empty() {
+            b.push(0);
+        }
+        b
+    })
+}
+
 fn gen_image_doc(rng: &mut Rng) -> J {
-    let h = if rng.chance(1, 3) { *rng.pick(&EXTREME) } else { rng.below(4) };
-    let w = if rng.chance(1, 3) { *rng.pick(&EXTREME) } else { rng.below(4) };
-    let c = match rng.below(8) {
+    let pick = |rng: &mut Rng| -> u64 {
+        match rng.below(6) {
+            0 | 1 => *rng.pick(&EXTREME),
+            2 => *rng.pick(src_bounds()),
+            _ => rng.below(4),
+        }
+    };
+    let h = pick(rng);
+    let w = pick(rng);
+    let c = match rng.below(9) {
         0 => *rng.pick(&EXTREME),
+        8 => *rng.pick(src_bounds()),
         1 => 0,
         2 => 2,
         3 => 1,
@@ -1809,6 +1950,48 @@ pub fn generate(rng: &mut Rng, n: usize, tier: &str) -> Vec<Value> {
         let doc = obj(vec![("type", js("flex")), ("children", J::A(vec![r, c.clone(), obj(vec![("view", c)])]))]);
         v.push(json!({"kind": "view", "what": "view", "cfg": cfg, "doc": j_to_spec(&doc)}));
     }
+    // repeated `data` keys, exhaustively on a small image: 1 x 2, one channel, every split of the two bytes into
+    // two and three parts, size and channels at every position among them, through the three text entry points
+    {
+        let data = [7u8, 200u8];
+        let mut splits: Vec<Vec<Vec<u8>>> = vec![];
+        for a in 0..=2usize {
+            splits.push(vec![data[..a].to_vec(), data[a..].to_vec()]);
+            for b in a..=2usize {
+                splits.push(vec![data[..a].to_vec(), data[a..b].to_vec(), data[b..].to_vec()]);
+            }
+        }
+        let mut k = 0usize;
+        for parts in splits.iter() {
+            let n = parts.len();
+            for ps in 0..=n {
+                for pc in 0..=n {
+                    let mut fields: Vec<(String, J)> = vec![];
+                    for (i, p) in parts.iter().enumerate() {
+                        if ps == i {
+                            fields.push(("size".to_string(), J::A(vec![J::U(1), J::U(2)])));
+                        }
+                        if pc == i {
+                            fields.push(("channels".to_string(), J::U(1)));
+                        }
+                        fields.push(("data".to_string(), js(&b64(p))));
+                    }
+                    if ps == n {
+                        fields.push(("size".to_string(), J::A(vec![J::U(1), J::U(2)])));
+                    }
+                    if pc == n {
+                        fields.push(("channels".to_string(), J::U(1)));
+                    }
+                    let mode = ["str", "slice", "reader"][k % 3];
+                    k += 1;
+                    v.push(json!({"kind": "image_ch", "c": 1, "h": 1, "w": 2, "mode": mode,
+                                  "parts": parts.iter().map(|p| jbytes(p)).collect::<Vec<_>>(), "doc": j_to_spec(&J::O(fields))}));
+                }
+            }
+        }
+    }
+    // sizes and counts the anchored sources mention (and their neighbours), small enough to carry data
+    let bounds: Vec<u64> = source_boundaries(&["src/image.rs", "src/surface.rs", "src/terminal.rs", "src/glyph.rs"], 40);
     let fixed = v.len();
     // random part ------------------------------------------------------------
     while v.len() < fixed + n {
@@ -1833,10 +2016,30 @@ pub fn generate(rng: &mut Rng, n: usize, tier: &str) -> Vec<Value> {
             }
             28..=35 => {
                 let c = *rng.pick(&[1u64, 3, 4]);
-                let (h, w) = (rng.below(5), rng.below(5));
+                // small sizes, or a boundary the image / surface / size code mentions (capped so that the data stays small)
+                let dim = |rng: &mut Rng| -> u64 {
+                    if !bounds.is_empty() && rng.chance(1, 5) { *rng.pick(&bounds) } else { rng.below(5) }
+                };
+                let (mut h, mut w) = (dim(rng), dim(rng));
+                if c * h * w > 4096 {
+                    h = h.min(4);
+                    w = w.min(4);
+                }
                 let len = (c * h * w) as usize;
                 let len = if rng.chance(1, 8) { len + 1 } else { len };
-                v.push(json!({"kind": "image_ch", "c": c, "h": h, "w": w, "data": jbytes(&rng.bytes(len)), "order": rng.below(6)}));
+                let data = rng.bytes(len);
+                if rng.chance(1, 3) {
+                    v.push(json!({"kind": "image_ch", "c": c, "h": h, "w": w, "data": jbytes(&data), "order": rng.below(6)}));
+                } else {
+                    // repeated keys: data in 1..4 parts, size and channels overridden, sometimes an invalid duplicate
+                    let k = 1 + rng.below(4) as usize;
+                    let parts = split_parts(rng, &data, k);
+                    let bad = rng.chance(1, 5);
+                    let doc = image_dup_doc(rng, c, h, w, &parts, bad);
+                    let mode = *rng.pick(&["str", "slice", "reader"]);
+                    v.push(json!({"kind": "image_ch", "c": c, "h": h, "w": w, "mode": mode,
+                                  "parts": parts.iter().map(|p| jbytes(p)).collect::<Vec<_>>(), "doc": j_to_spec(&doc)}));
+                }
             }
             36..=41 => {
                 let col = |rng: &mut Rng| -> Value {
@@ -1855,7 +2058,15 @@ pub fn generate(rng: &mut Rng, n: usize, tier: &str) -> Vec<Value> {
                 let w = if rng.chance(1, 2) { *rng.pick(&EXTREME) } else { rng.below(100) };
                 v.push(json!({"kind": "size", "h": h.to_string(), "w": w.to_string()}));
             }
-            53..=58 => v.push(json!({"kind": "size_de", "stream": rng.chance(1, 2), "doc": j_to_spec(&gen_size_j(rng))})),
+            53..=58 => {
+                let mut doc = gen_size_j(rng);
+                // repeated keys in every position, with equal / different / ill-typed / empty values (the derived
+                // visitor answers `duplicate field`; through a Value the last one wins)
+                if let J::O(f) = &mut doc {
+                    dup_keys(rng, f);
+                }
+                v.push(json!({"kind": "size_de", "stream": rng.chance(2, 3), "doc": j_to_spec(&doc)}));
+            }
             59..=64 => v.push(json!({"kind": "chord", "s": gen_chord_str(rng)})),
             65..=66 => v.push(json!({"kind": "chord_de", "doc": j_to_spec(&gen_scalar(rng))})),
             67..=72 => v.push(json!({"kind": "view", "what": "text", "doc": j_to_spec(&gen_text(rng, 3))})),
@@ -1877,6 +2088,9 @@ pub fn generate(rng: &mut Rng, n: usize, tier: &str) -> Vec<Value> {
                             for i in (1..f.len()).rev() {
                                 let k = rng.below(i as u64 + 1) as usize;
                                 f.swap(i, k);
+                            }
+                            if rng.chance(1, 2) {
+                                dup_keys(rng, &mut f);
                             }
                             // repeats inside the frame too
                             for (k, x) in f.iter_mut() {
